@@ -202,6 +202,10 @@ type verdict struct {
 
 // check runs one case in directory dir (private to the caller).
 func (r *runner) check(dir string, k ccase) verdict {
+	// a second script for the bodies that load one (it uses a name of its loader)
+	if err := os.WriteFile(filepath.Join(dir, "aux-load.ank"), []byte("loaded = greeting + \" from the loaded file\"\n"), 0o644); err != nil {
+		return verdict{machinery: err.Error()}
+	}
 	var argv []string
 	switch k.Mode {
 	case "file":
